@@ -200,7 +200,10 @@ pub struct Obs {
     pub proofs: usize,
     pub proof_shape: bool,
     pub witness: bool,
+    /// C16: decode the on-disk image after every step and compare with the model
     pub decode: bool,
+    /// C19: exact allocation partition + hash-table utilisation
+    pub alloc: bool,
     pub util: bool,
 }
 
@@ -860,6 +863,42 @@ impl<'a, H: HK> Runner<'a, H> {
             self.info = info;
             r?;
         }
+        if self.obs.decode || self.obs.alloc {
+            let img = crate::iosim::read_dir_image(&self.dir).map_err(|e| viol(i, format!("INFRA: reading the directory: {e}")))?;
+            let d = crate::decode::decode_image(&img).map_err(|m| viol(i, format!("on-disk image is not well-formed: {m}")))?;
+            crate::decode::check_values(&d, view).map_err(|m| viol(i, format!("on-disk image does not decode to the model: {m}")))?;
+            self.info.max("max_leaves", d.n_leaves as u64);
+            self.info.max("max_bbn", d.n_bbn as u64);
+            self.info.max("max_free_ln", (d.ln_free.entries.len() + d.ln_free.list_pages.len()) as u64);
+            self.info.max("max_free_list_pages_ln", d.ln_free.list_pages.len() as u64);
+            self.info.max("max_ht_tombstones", d.ht_tombstones as u64);
+            self.info.max("max_stored_merkle_pages", d.ht_full as u64);
+            self.info.add("overflow_values_decoded", d.n_overflow_values as u64);
+            if d.n_leaves >= 2 && !d.ln_free.entries.is_empty() && d.ht_pages.iter().any(|p| !p.path.is_empty()) {
+                self.info.bump("decoded_nontrivial_images");
+            }
+            self.info.bump("images_decoded");
+            if self.obs.decode {
+                let ms = crate::decode::check_merkle(&d, &img, H::KIND, view)
+                    .map_err(|m| viol(i, format!("on-disk merkle pages do not match the reference trie: {m}")))?;
+                self.info.add("merkle_nodes_compared", ms.nodes_compared as u64);
+                self.info.add("elided_pages_confirmed", ms.elided_ok as u64);
+                self.info.max("max_stored_page_depth", ms.max_depth as u64);
+            }
+            if self.obs.alloc {
+                crate::decode::check_partition(&d).map_err(|m| viol(i, format!("allocation: {m}")))?;
+                let u = db.nomt.hash_table_utilization();
+                if u.occupied != d.ht_full {
+                    return Err(viol(i, format!("hash_table_utilization().occupied = {} but {} buckets are marked full on disk", u.occupied, d.ht_full)));
+                }
+                if u.capacity != d.meta.as_ref().unwrap().buckets as usize {
+                    return Err(viol(i, format!("hash_table_utilization().capacity = {} but the table has {} buckets", u.capacity, d.meta.as_ref().unwrap().buckets)));
+                }
+                if view.is_empty() && u.occupied != 0 {
+                    return Err(viol(i, format!("store is empty but {} hash-table buckets are occupied", u.occupied)));
+                }
+            }
+        }
         // classification by model
         let inleaf: usize = view
             .values()
@@ -967,4 +1006,15 @@ impl<'a, H: HK> Runner<'a, H> {
         self.dir = PathBuf::from("/nonexistent-nomt-verif");
         db
     }
+}
+
+
+/// Decode the on-disk image of an idle store and compare it with `view` (C16 predicates).
+pub fn decode_check<H: HK>(dir: &Path, view: &Map) -> Result<crate::decode::Decoded, String> {
+    let img = crate::iosim::read_dir_image(dir).map_err(|e| format!("INFRA: reading the directory: {e}"))?;
+    let d = crate::decode::decode_image(&img).map_err(|m| format!("on-disk image is not well-formed: {m}"))?;
+    crate::decode::check_values(&d, view).map_err(|m| format!("on-disk image does not decode to the model: {m}"))?;
+    crate::decode::check_merkle(&d, &img, H::KIND, view)
+        .map_err(|m| format!("on-disk merkle pages do not match the reference trie: {m}"))?;
+    Ok(d)
 }
